@@ -14,7 +14,8 @@ first (`loadNode`, trie.go:518-545), a superset of the loads of the real code.
   mtbnow                   -> mtb=<n>          (the translated GetMaxTraceableBlocks at the current height; taken as a lowering)
   blk <idx> <sub>...       -> r=<root> n=<records> dg=<digest> ch=<changes> | panic
   blkq <idx> <sub>...      -> r=<root>
-  drop <idx> <sub>...      -> r=<root>
+  drop <idx> <sub>...      -> r=<root>         (AddMPTBatch + DropMPTBatch: computed, never committed)
+  dropold <idx> <sub>...   -> r=<root>         (self-test: AddMPTBatch without DropMPTBatch)
   persist                  -> up=<puts>/<dels>  (MemCachedStore.Persist; what was waiting in the upper layer)
   rungc                    -> gc=<g|-> n=.. dg=.. ch=..   (Run: tryRunGC(oldPersisted) — the model CHOOSES the index)
   tickchk <mtb> <old> <new> -> gc=<g|->        (tryRunGC's decision alone)
@@ -184,10 +185,19 @@ def step (d : DSt) (ws : List String) : DSt × String :=
     match idx.toNat?, parseSubs subs with
     | some i, some ops =>
       let c := d.c
+      let r := rootHash H (trieAfter c.root ops)
+      -- Model/MptRc.lean `dropBlock`: AddMPTBatch, then DropMPTBatch: the block's cache is discarded, the
+      -- module's trie is re-opened from the committed root (lazily: loads from now on), fresh refcount map
+      ({ d with c := { c with rc := [] }, lazy := true }, s!"r={Hex.encode r}")
+    | _, _ => (d, "bad-op")
+  | "dropold" :: idx :: subs =>
+    match idx.toNat?, parseSubs subs with
+    | some i, some ops =>
+      let c := d.c
       let t' := trieAfter c.root ops
       let r := rootHash H t'
-      -- Model/MptRc.lean `dropBlock`: the block's cache is discarded, but the trie object and the
-      -- refcount map are shared with the module's
+      -- self-test only (harness run with MPTRC_DROP_WITHOUT_RELOAD=1): `dropBlockNoReload`, the rule
+      -- before DropMPTBatch existed — the trie object and the refcount map stay shared
       match computeLay H c.mode i c.root c.rc c.lay ops (loadsFor d.lazy c.root ops) with
       | none => ({ d with c := { c with root := t' } }, s!"r={Hex.encode r}")
       | some (_, m', _) => ({ d with c := { c with root := t', rc := m' } }, s!"r={Hex.encode r}")
